@@ -2,6 +2,7 @@
 whatever the remote party chooses) + Adversary.tla (message classes x life-cycle points x sequences) executed against a
 real client under child-process supervision with an honest probe afterwards."""
 import os
+import json
 import vlib
 
 RCFG = "CONSTANT OneResponse = %s\nSPECIFICATION Spec\nINVARIANT AtMostOneResponse\nPROPERTY Released\nCHECK_DEADLOCK FALSE\n"
@@ -37,9 +38,14 @@ def run(prop, tier, seed, scratch, t0):
     viol = list(crashes)
     for d in results:
         viol += d["violations"]
-    for v in logged:
+    for n, v in enumerate(logged):
         if not any(x["sig"] == v["sig"] for x in viol):
-            viol.append(dict(property=v["property"], kind=v["kind"], sig=v["sig"], what=v["what"], replay=""))
+            rp = os.path.join(scratch, "replays")
+            os.makedirs(rp, exist_ok=True)
+            rpf = os.path.join(rp, "C12-logged-%d.json" % n)
+            with open(rpf, "w") as f:
+                json.dump(dict(replay=v.get("replay_obj"), what=v["what"]), f, indent=1)
+            viol.append(dict(property=v["property"], kind=v["kind"], sig=v["sig"], what=v["what"], replay=rpf))
     counts = vlib.merge_counts(results)
     mon = [v for v in viol if v["kind"] == "monitor"]
     drift = sorted({v["sig"] + ": " + v["what"][:200] for v in viol if v["kind"] != "monitor"})[:10]
